@@ -305,6 +305,15 @@ func (c *Conn) SendCutPaused(b []byte, cuts []int) {
 	c.Send(b[prev:])
 }
 
+// Pause queues a pause marker on its own (see SendCutPaused): the client stays silent for longer than
+// any read deadline the server has pending.
+func (c *Conn) Pause() {
+	c.mu.Lock()
+	c.in = append(c.in, []byte{})
+	c.cond.Broadcast()
+	c.mu.Unlock()
+}
+
 // SendEach queues b one byte per segment.
 func (c *Conn) SendEach(b []byte) {
 	cp := append([]byte(nil), b...)
@@ -497,10 +506,11 @@ type Listener struct {
 	readyOne sync.Once
 	Closes   atomic.Int32
 	accepted atomic.Int64
+	fail     chan error
 }
 
 func NewListener() *Listener {
-	return &Listener{ch: make(chan *Conn, 1024), done: make(chan struct{}), ready: make(chan struct{})}
+	return &Listener{ch: make(chan *Conn, 1024), done: make(chan struct{}), ready: make(chan struct{}), fail: make(chan error, 4)}
 }
 
 // Ready is closed once the server has entered its accept loop.
@@ -517,10 +527,19 @@ func (l *Listener) Accept() (net.Conn, error) {
 	case c := <-l.ch:
 		l.accepted.Add(1)
 		return c, nil
+	case err := <-l.fail:
+		return nil, err
 	case <-l.done:
 		return nil, net.ErrClosed
 	}
 }
+
+// Accepted returns how many connections Accept has handed out so far.
+func (l *Listener) Accepted() int64 { return l.accepted.Load() }
+
+// FailAccept makes the pending (or next) Accept call return err, as a listener does whose socket
+// fails (EMFILE, ...) - the listener itself stays open.
+func (l *Listener) FailAccept(err error) { l.fail <- err }
 
 func (l *Listener) Close() error {
 	l.Closes.Add(1)
